@@ -22,5 +22,6 @@ impl<W: io::Write> WriteSpecImpl for CountingWriter<W> {
     open spec fn wf(&self) -> bool { self.cw_wf() }
     open spec fn anchor(&self) -> nat { (self.wtr.sink().len() - self.cnt) as nat }
     open spec fn flushed(&self) -> bool { self.wtr.flushed() }
+    open spec fn infallible(&self) -> bool { self.wtr.infallible() }
 }
 
